@@ -4,6 +4,7 @@ import VtModel
 def dispatch (line : String) : String :=
   match line.trimAscii.toString.splitOn " " with
   | "C20" :: args => VtModel.Cache.handle args
+  | "C15" :: args => VtModel.BBoxProto.handle args
   | _ => "bad-stream"
 
 partial def loop (hin : IO.FS.Stream) (hout : IO.FS.Stream) : IO Unit := do
